@@ -344,6 +344,9 @@ func (t *TCP) serve(c net.Conn) {
 	defer func() {
 		ss.Disconnect()
 		c.Close()
+		t.mu.Lock()
+		delete(t.conns, ss.ID)
+		t.mu.Unlock()
 	}()
 	var rd io.Reader = c
 	if t.OnBytes != nil {
